@@ -26,6 +26,7 @@ pub mod layouts;
 macro_rules! dispatch {
     ($($id:literal => $m:ident),* $(,)?) => {
         pub fn run(sut: &dyn Sut, prop: &str, tier: Tier) -> ! {
+            let _ = crate::probe::WS_SUFFIX.set(tier.name()[..1].to_string());
             match prop {
                 $($id => $m::run(sut, tier),)*
                 _ => {
@@ -36,6 +37,7 @@ macro_rules! dispatch {
         }
         pub fn replay(sut: &dyn Sut, prop: &str, path: &str) -> ! {
             crate::preflight::quiet_panics();
+            let _ = crate::probe::WS_SUFFIX.set("r".to_string());
             let v = crate::engine::read_json(path);
             let r = match prop {
                 $($id => $m::eval_replay(sut, &v),)*
